@@ -125,6 +125,7 @@ def generate(rng):
     cases = []
     for kind in KINDS:
         content = gen_content(rng, kind, R)
+        cases.append({"kind": kind, "content": content, "pre": "hardlink", "inject": None})
         for pre in (True, False):
             cases.append({"kind": kind, "content": content, "pre": pre, "inject": None})
             cases.append({"kind": kind, "content": content, "pre": pre, "inject": "unencodable"})
@@ -143,6 +144,8 @@ def impl(case):
         if case["pre"]:
             build(kind, case["content"]).dump(path)
             before = open(path, "rb").read()
+            if case["pre"] == "hardlink":
+                os.link(path, path + ".second-name")      # the last good copy is also known under another name
         obj = build(kind, case["content"])
         restore = None
         if case["inject"] is None:
